@@ -31,7 +31,7 @@ def parseGroup (s : Sexp) : Option (List Comment) :=
   | _ => none
 
 def showR : R → String
-  | .ok true => "ok:true" | .ok false => "ok:false" | .panic => "panic"
+  | .ok true => "ok:true" | .ok false => "ok:false" | .panic => "panic" | .err => "err"
 def showSel : Spec.Sel → String
   | .yes => "yes" | .no => "no" | .err => "err"
 
